@@ -172,7 +172,7 @@ def run_case(desc):
     nps = [1, 1, 2, 3, "array"][rng.randint(5)]
     if nps == "array":
         nps = rng.randint(1, 4, size=int(rng.randint(1, 4)))
-    aperf = [None, None, "vec", "mat", "binary"][rng.randint(5)]
+    aperf = [None, None, "vec", "mat", "binary", "wide", "uint8"][rng.randint(7)]
     kw = dict(X=X.copy(), y=Y.copy(), batch_size=bs, return_utilities=True)
     if cands is not None:
         kw["candidates"] = cands.copy()
@@ -200,6 +200,12 @@ def run_case(desc):
             kw["A_perf"] = np.round(rng.rand(n_c, A), 2)
         elif aperf == "binary":
             kw["A_perf"] = (rng.rand(n_c, A) < 0.5).astype(float)
+        elif aperf == "wide":         # scores on a wide scale (the normalisation resolves ranges far beyond this)
+            kw["A_perf"] = np.round(rng.rand(n_c, A) * 1e6)
+            kw["A_perf"].flat[0], kw["A_perf"].flat[-1] = 0.0, 1e6
+        elif aperf == "uint8":        # small unsigned integer scores using the full range of their dtype
+            kw["A_perf"] = rng.randint(0, 256, size=A).astype(np.uint8)
+            kw["A_perf"][0], kw["A_perf"][-1] = 0, 255
         comp = "SingleAnnotatorWrapper"
         nps_int = nps if isinstance(nps, int) else [int(v) for v in np.asarray(nps).tolist()]
     # sample-level labels seen by the wrapped strategy (for the G22 trigger)
